@@ -63,6 +63,16 @@ def _advances(node, cid, db):
             t = strip(kids(x)[0])
             if t.get("kind") == "DeclRefExpr" and t["referencedDecl"]["id"] == cid:
                 raise AnalysisBroken("cursor moved backwards at line %s" % x.get("line"))
+        elif (k == "VarDecl" and x.get("id") == cid) or (k == "BinaryOperator" and x.get("opcode") == "=" and strip(kids(x)[0]).get("kind") == "DeclRefExpr"
+                                                         and strip(kids(x)[0])["referencedDecl"]["id"] == cid):
+            # the cursor starts (or is re-based) K elements into the array:  T* v = base + K
+            init = [c for c in kids(x) if isinstance(c, dict) and c.get("kind")]
+            e = strip(init[-1]) if init else None
+            if e is not None and e.get("kind") == "BinaryOperator" and e.get("opcode") == "+":
+                a, b = strip(kids(e)[0]), strip(kids(e)[1])
+                lit = b if b.get("kind") == "IntegerLiteral" else (a if a.get("kind") == "IntegerLiteral" else None)
+                if lit is not None:
+                    n += int(lit.get("value"))
     return n
 
 
